@@ -440,6 +440,9 @@ func (w *world) atQuiescence() {
 	if len(stat) > 0 {
 		w.nontrivial = true
 	}
+	if env.On("C18") {
+		w.unrelatedEventCheck()
+	}
 	cfg := inc.cfgInForce
 	if cfg == nil {
 		// no configuration accepted yet (or the current one is rejected): the controller does not
@@ -577,6 +580,32 @@ func (w *world) atQuiescence() {
 	if env.On("C11") {
 		w.checkCounters(inc, "quiescence", mem)
 	}
+}
+
+// unrelatedEventCheck is the controller half of C18: at quiescence the pool reconciler has seen
+// every event, so reconciling once more - as any duplicate or unrelated event makes it do, under
+// fresh listing and map orders - recomputes the configuration from the same snapshot; it must look
+// unchanged: the pool handler is not invoked again and no re-sync of all Services is requested.
+func (w *world) unrelatedEventCheck() {
+	inc := w.inc
+	if !inc.started || inc.poolHandlerCalls == 0 {
+		return
+	}
+	poolW, svcW := inc.workers[1], inc.workers[0]
+	keys := append(w.poolKeys(), "/"+nsNames[0])
+	key := keys[w.pick(len(keys), "unrelated event for")]
+	calls := inc.poolHandlerCalls
+	poolW.q.Add(key)
+	w.noInterleave = true
+	for guard := 0; guard < 10 && poolW.q.Len() > 0; guard++ {
+		w.workerStep(inc, poolW)
+	}
+	w.noInterleave = false
+	w.stat("probe.unrelated-event-delivered-to-the-pool-reconciler")
+	if inc.poolHandlerCalls != calls {
+		w.violate("C18", "unrelated-event-looks-like-a-configuration-change", "", fmt.Sprintf("at quiescence a duplicate event for %s made the pool reconciler hand the configuration to the controller again (and request a re-sync of all Services) although no resource changed [pools: %s]", key, inc.cfgRaw))
+	}
+	_ = svcW
 }
 
 // livelockSignature names the cause of a livelock when it is a listed shape.
